@@ -369,21 +369,21 @@ func Convert(value any, typ reflect.Type) (any, error) { //nolint: gocyclo
 		case reflect.Array, reflect.Slice:
 			result := reflect.MakeSlice(typ, 0, rv.Len())
 			for i := range rv.Len() {
-				item, err := Convert(rv.Index(i).Interface(), typ.Elem())
+				item, err := convertElement(rv.Index(i).Interface(), typ.Elem())
 				if err != nil {
 					return nil, err
 				}
-				result = reflect.Append(result, reflect.ValueOf(item))
+				result = reflect.Append(result, item)
 			}
 			return result.Interface(), nil
 		case reflect.Map:
 			result := reflect.MakeSlice(typ, 0, rv.Len())
 			for _, key := range SortedMapKeys(rv) {
-				item, err := Convert(rv.MapIndex(key).Interface(), typ.Elem())
+				item, err := convertElement(rv.MapIndex(key).Interface(), typ.Elem())
 				if err != nil {
 					return nil, err
 				}
-				result = reflect.Append(result, reflect.ValueOf(item))
+				result = reflect.Append(result, item)
 			}
 			return result.Interface(), nil
 		}
@@ -398,6 +398,22 @@ func Convert(value any, typ reflect.Type) (any, error) { //nolint: gocyclo
 		}
 	}
 	return nil, conversionError("", value, typ)
+}
+
+// convertElement converts an element of an array, slice or map for a slice with elements of
+// type et. A nil element (of a [3]any, a []fmt.Stringer, a map[string]any) stays nil when et can hold nil.
+func convertElement(elem any, et reflect.Type) (reflect.Value, error) {
+	if ToLiquid(elem) == nil {
+		switch et.Kind() {
+		case reflect.Interface, reflect.Ptr, reflect.Map, reflect.Slice:
+			return reflect.Zero(et), nil
+		}
+	}
+	item, err := Convert(elem, et)
+	if err != nil {
+		return reflect.Value{}, err
+	}
+	return reflect.ValueOf(item), nil
 }
 
 // MustConvert is like Convert, but panics if conversion fails.
